@@ -41,19 +41,70 @@ def run(ctx):
     qm, hexarm = parser_map(F)
     if not ctx.anchor("C36.a", "parser escape table", qm or {}, 6):
         return
-    handled = set(qm) | ({"xHH"} if hexarm else set())
+    # structured view of the parser: literal arms (==), prefix arms (starts_with), numeric conversions
+    pb = F.body("jj_lib::dsl_util::StringLiteralParser::<R>::parse")
+    psl = F.slicer(pb.id)
+    prefixes = set()
+    for c in pb.calls:
+        if not c.cleanup and name_matches(c.res or c.decl or "", "re:str>::starts_with"):
+            k = strip(psl.call_arg(c, 1))
+            if isinstance(k, tuple) and k[0] == "const":
+                prefixes.add(k[1] if isinstance(k[1], str) else chr(k[1]))
+    radix_bits = []
+    for c in pb.calls:
+        m_ = re.search(r"num::<impl (u\d+)>::from_str_radix$", c.res or c.decl or "")
+        if m_ and not c.cleanup:
+            radix_bits.append(int(m_.group(1)[1:]))
+    names = [(c.res or c.decl or "") for c in pb.calls if not c.cleanup]
+    fallible_char = any(n.endswith("char::from_u32") or n.endswith("char::methods::<impl char>::from_u32") or n.endswith("::from_digit") for n in names)
+    unwraps_option = any(name_matches(n, "re:Option::<T>::(expect|unwrap)$") for n in names)
+    from jjv.lib import term_calls as _tc
+    char_unwrapped = False
+    for c in pb.calls:
+        if not c.cleanup and name_matches(c.res or c.decl or "", "re:Option::<T>::(expect|unwrap)$"):
+            t = psl.call_arg(c, 0)
+            if any(name_matches(x[1], "re:from_u32$|from_digit$") for x in _tc(t)):
+                char_unwrapped = True
+    from rules.pest_grammar import escape_alternatives
     for g, rel in GRAMMARS.items():
-        rules = pest_rules(os.path.join(ctx.repo, rel))
-        gs = grammar_escapes(rules.get("string_escape", ("", ""))[1])
-        if not ctx.anchor("C36.a", f"{g}.pest string_escape", gs or [], 6):
+        alts_ = escape_alternatives(Grammar(os.path.join(ctx.repo, rel)))
+        if not ctx.anchor("C36.a", f"{g}.pest string_escape alternatives", alts_ or [], 6):
             continue
-        for esc in sorted(gs):
-            ok = esc in handled
-            ctx.ob("C36.a/grammar-escape-handled", f"{g}|{esc!r}", ok, "handled by StringLiteralParser::parse" if ok else
-                   f"{g}.pest accepts the escape \\{esc} but StringLiteralParser::parse panics on it "
-                   f"(`invalid escape`) -- reachable from user input")
-        ctx.ob("C36.a/hex-escape-two-digits", g, "x?" not in gs, "\\x is followed by ASCII_HEX_DIGIT{2}" if "x?" not in gs else
-               "the grammar accepts \\x without exactly two hex digits: from_str_radix(..).expect() can panic")
+        for lead, tail in alts_:
+            if lead is None or any(t_[0] == "other" for t_ in tail):
+                ctx.ob("C36.a/grammar-escape-handled", f"{g}|?", False, f"{g}.pest has an escape alternative the rule cannot read")
+                continue
+            if not tail:
+                ok = lead in qm
+                ctx.ob("C36.a/grammar-escape-handled", f"{g}|{lead!r}", ok, "handled by a literal arm of StringLiteralParser::parse" if ok else
+                       f"{g}.pest accepts the escape \\{lead} but StringLiteralParser::parse has no arm for it: its "
+                       f"`invalid escape` panic is reachable from user input")
+                continue
+            okp = any(lead.startswith(p_) for p_ in prefixes)
+            ctx.ob("C36.a/grammar-escape-handled", f"{g}|{lead!r}+digits", okp,
+                   f"handled by the starts_with arm ({sorted(prefixes)})" if okp else
+                   f"{g}.pest accepts the escape \\{lead}.. but StringLiteralParser::parse has no starts_with arm for it "
+                   f"(`invalid escape` panic reachable)")
+            for t_ in tail:
+                if t_[0] != "hex":
+                    continue
+                lo, hi = t_[1], t_[2]
+                bits = max(radix_bits) if radix_bits else 0
+                okw = hi is not None and lo >= 1 and bits and 4 * hi <= bits
+                if lead == "x":
+                    okw = okw and (lo, hi) == (2, 2)
+                ctx.ob("C36.a/hex-digits-fit-the-conversion", f"{g}|{lead!r}", bool(okw),
+                       f"{lo}..{hi} hex digits fit from_str_radix::<u{bits}>" if okw else
+                       f"the grammar admits {lo}..{hi if hi is not None else 'unbounded'} hex digits after \\{lead} but the parser "
+                       f"converts them with from_str_radix into {bits} bits and expect()s the result")
+                if hi is None or 16 ** hi - 1 > 0xFF:
+                    # values beyond a byte are turned into a char: char::from_u32 is partial (surrogates, > 0x10FFFF)
+                    okc = not (fallible_char and char_unwrapped)
+                    ctx.ob("C36.a/code-point-conversion-total", f"{g}|{lead!r}", okc,
+                           "no unwrapped char::from_u32" if okc else
+                           f"the grammar admits code points up to {hex(16 ** hi - 1) if hi else 'any size'} after \\{lead}, and "
+                           f"the parser unwraps char::from_u32(..): surrogates / values above 0x10FFFF panic -- reachable from "
+                           f"user input")
     rule_b(ctx)
     rule_c(ctx)
     rule_d(ctx)
